@@ -384,7 +384,13 @@ class NameBinding(Binding):
             elif isinstance(node, ast.ExceptHandler):
                 node.name = new_name
             elif isinstance(node, (ast.Global, ast.Nonlocal)):
-                node.names = [new_name if n == self._name else n for n in node.names]
+                # A name that has already been renamed may now be spelled like this binding's old name
+                renamed_names = getattr(node, 'renamed_names', set())
+                for i, name in enumerate(node.names):
+                    if name == self._name and i not in renamed_names:
+                        node.names[i] = new_name
+                        renamed_names.add(i)
+                node.renamed_names = renamed_names
             elif isinstance(node, ast.arguments):
 
                 rename_vararg = (node.vararg == self._name) and not getattr(node, 'vararg_renamed', False)
